@@ -157,7 +157,8 @@ def check_script_result(ctx, stats, kind, text, r, canary):
 
 
 def depth_ok(src):
-    return src.count("(") < 40 and "**" not in src.replace("** 0", "").replace("** 1", "").replace("** 2", "").replace("** 3", "").replace("** -1", "").replace("** 0.5", "")
+    # the guard of the generated streams: no tower, no float overflowing to infinity (F-C11-int-of-infinity)
+    return src.count("(") < 40 and "1e308" not in src and "e999" not in src and "**" not in src.replace("** 0", "").replace("** 1", "").replace("** 2", "").replace("** 3", "").replace("** -1", "").replace("** 0.5", "")
 
 
 def run(ctx: C.Ctx):
@@ -240,6 +241,13 @@ def run(ctx: C.Ctx):
         pairs = [(p, h) for p in pos for h in hx]
     for p, h in pairs:
         scripts.append(("hostile", HEADER + p.replace("{H}", h) + "\n"))
+    # every source of a non-ValueError exception of the evaluator, in every position
+    ERR_SOURCES = ["1 / 0", "1 // 0", "1 % 0", "0 ** -1", "-'a'", "1 < 'a'", "max(1, 'a')", "min('a', 1)", "1 << -1", "1.5 | 1", "int('x')",
+                   "float('x')", "len(5)", "abs('a')", "'a' + 1", "2.0 ** 5000", "int(1e400)", "(1, 2) < (1, 'a')", "f'{1 / 0}'",
+                   "[1 / 0]", "1 if 1 / 0 else 2", "0 or 1 / 0", "not (1 < 'a')", "n / 0", "s < 1", "-s", "xs + 1"]
+    for p in pos:
+        for e in ERR_SOURCES:
+            scripts.append(("error-source", HEADER + p.replace("{H}", e) + "\n"))
     gen_srcs = [s for s, _ in L.gen_eval_cases(ctx, 400 if thorough else 120) if depth_ok(s)]
     for i, e in enumerate(gen_srcs):
         scripts.append(("generated-expr", HEADER + pos[i % len(pos)].replace("{H}", e) + "\n"))
@@ -276,6 +284,10 @@ def run(ctx: C.Ctx):
         r = C.run_impl("c11_impl.py", {"cases": [["blowup", 12], ["blowup", 16], ["blowup", 20]], "limit": 30})
         if [x.get("bits") for x in r] == [2 ** 12 + 1, 2 ** 16 + 1, 2 ** 20 + 1]:
             ctx.known(f"F-C11-exponent-blowup: {listed['F-C11-exponent-blowup']['what']}")
+    if "F-C11-int-of-infinity" in listed:
+        r = C.run_impl("c11_impl.py", {"cases": [["script", HEADER + "led.blink(1e999, 1)\n"]], "limit": 30})
+        if r[0]["exc"] == "OverflowError":
+            ctx.known(f"F-C11-int-of-infinity: {listed['F-C11-int-of-infinity']['what']}")
     if "F-C11-recursion-error" in listed:
         r = C.run_impl("c11_impl.py", {"cases": [["script", HEADER + "y = " + " + ".join(["1"] * 3000) + "\n"]], "limit": 30})
         if r[0]["exc"] == "RecursionError":
@@ -289,9 +301,9 @@ def run(ctx: C.Ctx):
         "samples": [{"expr": hostile[0][0]}, {"script": scripts[0][1][len(HEADER):]}, {"script": scripts[len(pairs) // 2][1][len(HEADER):]}],
         "distribution": dict(sorted(stats.items())),
         "max_wall_s_per_script": max(walls) if walls else 0,
-        "guard": "expressions with bounded magnitude (no ** / << towers: F-C11-exponent-blowup) and nesting depth < 200 (F-C11-recursion-error)",
+        "guard": "expressions with bounded magnitude (no ** / << towers: F-C11-exponent-blowup), no float overflowing to infinity in a numeric argument (F-C11-int-of-infinity) and nesting depth < 200 (F-C11-recursion-error)",
         "unmodelled": ["the Python process executing parser.py / emitter.py (regex matching, string building): observed by audit hook + canaries + exception kinds, support only - not proved",
-                       "CPython's recursion limit and int->str digit limit", "target() reading the file (C12)", "ast.literal_eval fallbacks (flash_pattern, ultrasonic model): exercised by the hostile scripts, not modelled",
+                       "CPython's recursion limit and int->str digit limit", "IEEE infinities / NaN (the model's floats are exact rationals): int(inf) at the folding call sites is the listed finding F-C11-int-of-infinity", "target() reading the file (C12)", "ast.literal_eval fallbacks (flash_pattern, ultrasonic model): exercised by the hostile scripts, not modelled",
                        "environment reads (os.environ) have no audit event: only the canary / builtins profile would show them inside _eval_const"],
         "trusted_base": C.COMMON_TRUSTED + ["harness/gen/safecasts.py (operator / cast / safe-name tables of parser.py)",
                                             "CPython audit events and sys.setprofile c_call events as the observation of 'access' and 'call' (support part)"],
